@@ -580,6 +580,34 @@ let bval_of (t : string) : bval = match t.[0] with
   | _ -> failwith ("bad bval " ^ t)
 
 (* ---------- dispatch ---------- *)
+
+(* ---------- Checker.check orchestration (Model/Check.v) ---------- *)
+let ck_ascii (l : n list) : string = String.concat "" (List.map (fun c -> String.make 1 (Char.chr (ZA.to_int (zarith_of_n c) land 127))) l)
+let ck_load_result (a : string array) (i : int) =
+  match a.(i) with
+  | "file" -> LFile
+  | "dec" -> LDecodeError (arg_str a.(i + 1), arg_z a.(i + 2), arg_str a.(i + 3))
+  | "mosyn" -> LMoSyntax (arg_str a.(i + 1))
+  | "errno" -> LOSErrno (arg_str a.(i + 1))
+  | "noerrno" -> LOSNoErrno (arg_str a.(i + 1))
+  | "other" -> LOther (arg_str a.(i + 1))
+  | k -> failwith ("bad load result kind: " ^ k)
+let ck_arg_s = function
+  | ASafe t -> "safe:" ^ out_str t | AStr t -> "str:" ^ out_str t | ABytes t -> "bytes:" ^ out_str t
+let ck_event_s e = String.concat " " (("ev " ^ ck_ascii e.ev_tag) :: List.map ck_arg_s e.ev_args)
+let ck_call_s (c, enc) =
+  (match c with Pofile -> "po:" | Mofile -> "mo:") ^ (match enc with None -> "-" | Some e -> out_str e)
+let ck_end_s e =
+  match e with
+  | Returned -> "returned"
+  | RunSubchecks (t, b, r) ->
+    "run " ^ b01 t ^ b01 b ^ b01 r ^ " " ^
+    String.concat "," (List.map (fun (nm, seen) -> ck_ascii nm ^ ":" ^ b01 seen) (subchecks_of e))
+  | Raised RUnicodeDecodeError -> "raised UnicodeDecodeError"
+  | Raised (ROSError m) -> "raised OSError " ^ out_str m
+  | Raised (RExc nm) -> "raised other " ^ out_str nm
+let ck_dash f l = if l = [] then "-" else f l
+
 let handle (op : string) (a : string array) : string =
   match op with
   | "parse" -> with_expr (arg_n a.(0)) (arg_str a.(1)) (fun e -> "ok " ^ expr_to_string e)
@@ -866,6 +894,16 @@ let handle (op : string) (a : string array) : string =
     let nk = arg_int a.(2 + n) in
     let kw = List.init nk (fun i -> (arg_str a.(3 + n + 2 * i), bval_of a.(4 + n + 2 * i))) in
     fres_s (cpy_format0 re_d_value (arg_str a.(0)) args kw)
+  | "checktop" -> (* stat-kind stat-arg file-type(- = None) path  k1 s1 z1 e1  k2 s2 z2 e2 *)
+    let st = (match a.(0) with
+      | "ok" -> StatOk | "oserr" -> StatOSError (arg_str a.(1)) | "other" -> StatOther (arg_str a.(1))
+      | k -> failwith ("bad stat kind: " ^ k)) in
+    let ft = if a.(2) = "-" then None else Some (arg_str a.(2)) in
+    let first = ck_load_result a 4 and retry = ck_load_result a 8 in
+    let r = check_top_ascii st ft (arg_str a.(3)) (fun _ enc -> match enc with None -> first | Some _ -> retry) in
+    "events=" ^ ck_dash (fun l -> String.concat " | " (List.map ck_event_s l)) r.r_events ^
+    " ; calls=" ^ ck_dash (fun l -> String.concat "," (List.map ck_call_s l)) r.r_calls ^
+    " ; end=" ^ ck_end_s r.r_end
   | _ -> "unknown-op " ^ op
 
 let () =
